@@ -286,12 +286,14 @@ DAY_BASES = {"zero": 0, "min": (dt.datetime.min - EPOCH).days, "max": (dt.dateti
              "y2038": 24855}
 
 
-IV_DAYS = [-2, -1, 0, 1, 2]
-IV_SECONDS = [0, 1, 43200, 86399]
-IV_MICROS = [0, 1, 500000, 999999]
+IV_DOMAINS = {
+    False: ([-2, -1, 0, 1, 2], [0, 1, 43200, 86399], [0, 1, 500000, 999999]),
+    True: (list(range(-6, 7)), [0, 1, 59, 60, 3599, 3600, 43199, 43200, 86398, 86399], [0, 1, 999, 1000, 499999, 500000, 999998, 999999]),
+}
 
 
-def h_interval(iname: str, dname: str, base: str, isnone: bool, dd: int, sec: int, us: int) -> bool:
+def h_interval(iname: str, dname: str, base: str, wide: bool, isnone: bool, dd: int, sec: int, us: int) -> bool:
+    IV_DAYS, IV_SECONDS, IV_MICROS = IV_DOMAINS[wide]
     bind, result = INTERVAL_PROCS[(iname, dname)]
     if isnone:
         return _apply(bind, None) is None and _apply(result, None) is None
@@ -484,7 +486,13 @@ for _tn in TYPES:
             PROCS[(_tn, _sn, _dn)] = (_b, _r)
 
 
-def h_typedec(tname: str, shape: str, dname: str, isnone: bool, v: int, s: str) -> bool:
+def h_typedec(tname: str, si: int, di: int, isnone: bool, v: int, s: str) -> bool:
+    # statement shape and dialect are symbolic indexes (one fork per entry): few slices, so that the framework's
+    # per-slice cap on recorded counterexamples bounds the replay work if everything breaks at once
+    assume(0 <= si < len(SHAPES) and 0 <= di < len(DNAMES))
+    shape, dname = SHAPES[si], DNAMES[di]
+    if (tname, shape, dname) not in PROCS:
+        return True  # statement shape not supported by the dialect (no RETURNING)
     bind, result = PROCS[(tname, shape, dname)]
     chains = TYPES[tname][1]
     chain = chains.get(dname, chains["*"])
@@ -576,6 +584,8 @@ META = {
                     "symbolic values: the solver enumerates the bounded domain"],
 }
 META["bounds"]["thorough"] = dict(META["bounds"]["quick"])
+META["bounds"]["thorough"]["Interval"] = ("days in base-6..base+6 for the same bases; 10 second values and 8 microsecond values around "
+                                          "0, the minute/hour/half-day/day boundaries")
 
 
 def harnesses(tier: str) -> List[Harness]:
@@ -602,19 +612,20 @@ def harnesses(tier: str) -> List[Harness]:
                       [dict(ename=e, dname=dn, kind=k) for e in sorted(ENUMS) for dn in DNAMES
                        for k in (("none", "member", "name", "bad") if e.startswith("pyenum") else ("none", "member"))], budget_s=20))
     hs.append(Harness("interval", h_interval,
-                      [dict(iname=i, dname=dn, base=b) for i in sorted(INTERVALS) for dn in DNAMES for b in sorted(DAY_BASES)], budget_s=60))
+                      [dict(iname=i, dname=dn, base=b, wide=not q) for i in sorted(INTERVALS) for dn in DNAMES for b in sorted(DAY_BASES)],
+                      budget_s=60 if q else 600))
     hs.append(Harness("pickle", h_pickle,
                       [dict(pname=p, dname=dn, kind=k) for p in sorted(PICKLES) for dn in (DNAMES if not q else ("sqlite", "default"))
                        for k in ("none", "int", "tuple", "nested", "list", "bigint")], budget_s=30))
     td = []
-    for (tn, sn, dn) in sorted(PROCS):
-        d = dict(tname=tn, shape=sn, dname=dn)
+    for tn in sorted(TYPES):
+        d = dict(tname=tn)
         if tn.startswith("S"):
             d["v"] = 0
         else:
             d["s"] = ""
         td.append(d)
-    hs.append(Harness("typedecorator", h_typedec, td, budget_s=20))
+    hs.append(Harness("typedecorator", h_typedec, td, budget_s=120))
     return hs
 
 
@@ -622,9 +633,10 @@ def classify(hname, args, rep):
     a = dict(args)
     fixed = {k: v for k, v in sorted(a.items()) if isinstance(v, str) and k not in ("s",)}
     if hname == "typedecorator":
-        return ("C09:typedecorator:%s:%s:%s" % (a["tname"], a["shape"], a["dname"]),
+        shape, dname = SHAPES[a["si"]], DNAMES[a["di"]]
+        return ("C09:typedecorator:%s:%s:%s" % (a["tname"], shape, dname),
                 "TypeDecorator %s via %s on %s: processing not applied exactly once / round trip broken for v=%r s=%r none=%s (%s)"
-                % (a["tname"], a["shape"], a["dname"], a.get("v"), a.get("s"), a.get("isnone"), rep.get("exception")))
+                % (a["tname"], shape, dname, a.get("v"), a.get("s"), a.get("isnone"), rep.get("exception")))
     return ("C09:%s:%s" % (hname, ":".join("%s=%s" % kv for kv in fixed.items())),
             "%s fails on %s (%s)" % (hname, a, rep.get("exception")))
 
